@@ -105,35 +105,51 @@ func get(ae, rng string) {
 		ct := resp.Header.Get("Content-Type")
 		mt, params, _ := mime.ParseMediaType(ct)
 		if mt == "multipart/byteranges" {
-			// framing is the stdlib's: report only whether the announced length was the delivered length
-			if cl == strconv.Itoa(len(body)) && rerr == nil {
-				cl = "mp"
-			} else if cl == "" && rerr == nil {
-				cl = "mp" // no announced length (chunked)
-			} else {
+			// framing is the stdlib's, but it has to be COMPLETE: the announced length is the delivered length, every part
+			// can be read to its end and the body ends with the closing delimiter (NextPart reaches io.EOF, nothing else)
+			var parts []string
+			clean := rerr == nil
+			mr := multipart.NewReader(strings.NewReader(string(body)), params["boundary"])
+			for {
+				p, err := mr.NextPart()
+				if err == io.EOF {
+					break
+				}
+				if err != nil {
+					clean = false
+					break
+				}
+				pb, perr := io.ReadAll(p)
+				parts = append(parts, hx.HexS(p.Header.Get("Content-Range")), hx.Hex(pb))
+				if perr != nil {
+					clean = false
+					break
+				}
+			}
+			if !strings.HasSuffix(strings.TrimRight(string(body), "\r\n"), "--"+params["boundary"]+"--") {
+				clean = false
+			}
+			switch {
+			case rerr != nil:
+				cl = "readerr"
+			case !clean:
+				cl = "mpbad"
+			case cl == "" || cl == strconv.Itoa(len(body)):
+				cl = "mp" // announced length = delivered length (or chunked)
+			default:
 				cl = "mpbad"
 			}
-		} else if cl == "" {
+			out = append(out, cl, hx.HexS(resp.Header.Get("Content-Encoding")), hx.HexS(resp.Header.Get("Content-Range")))
+			out = append(out, "m", strconv.Itoa(len(parts)/2))
+			return append(out, parts...)
+		}
+		if cl == "" {
 			cl = "-"
 		}
 		if rerr != nil {
 			cl = "readerr"
 		}
 		out = append(out, cl, hx.HexS(resp.Header.Get("Content-Encoding")), hx.HexS(resp.Header.Get("Content-Range")))
-		if mt == "multipart/byteranges" {
-			mr := multipart.NewReader(strings.NewReader(string(body)), params["boundary"])
-			var parts []string
-			for {
-				p, err := mr.NextPart()
-				if err != nil {
-					break
-				}
-				pb, _ := io.ReadAll(p)
-				parts = append(parts, hx.HexS(p.Header.Get("Content-Range")), hx.Hex(pb))
-			}
-			out = append(out, "m", strconv.Itoa(len(parts)/2))
-			return append(out, parts...)
-		}
 		return append(out, "b", hx.Hex(body))
 	}))
 }
@@ -168,30 +184,54 @@ func singles(n int) []string {
 	return out
 }
 
+// int64 boundary values for first/last-byte-pos and suffix lengths
+var bigVals = []string{"9223372036854775807", "9223372036854775806", "9223372036854775808", "4294967296", "4611686018427387904", "18446744073709551615", "18446744073709551616"}
+
 func randSpec(r *hx.Rng, n int) string {
-	v := func() int {
+	v := func() string {
 		switch r.Intn(8) {
 		case 0:
-			return n
+			return strconv.Itoa(n)
 		case 1:
-			return n + 1 + r.Intn(3)
+			return strconv.Itoa(n + 1 + r.Intn(3))
 		case 2:
-			return 0
+			return "0"
+		case 3:
+			if r.Chance(1, 3) {
+				return r.Pick(bigVals)
+			}
 		}
-		return r.Intn(n + 1)
+		return strconv.Itoa(r.Intn(n + 1))
 	}
+	num := func(x string) uint64 { u, _ := strconv.ParseUint(x, 10, 64); return u }
 	switch r.Intn(6) {
 	case 0:
-		return fmt.Sprintf("%d-", v())
+		return v() + "-"
 	case 1:
-		return fmt.Sprintf("-%d", v())
+		return "-" + v()
 	default:
 		a, b := v(), v()
-		if a > b && !r.Chance(1, 8) {
+		if num(a) > num(b) && !r.Chance(1, 8) {
 			a, b = b, a
 		}
-		return fmt.Sprintf("%d-%d", a, b)
+		return a + "-" + b
 	}
+}
+
+// headers built around the int64 boundary: alone and as members of multi-range headers
+func boundaryHeaders(n int) []string {
+	var out []string
+	for _, big := range []string{"9223372036854775807", "9223372036854775806", "9223372036854775808"} {
+		for a := 0; a <= 2 && a <= n+1; a++ {
+			out = append(out, fmt.Sprintf("bytes=%d-%s", a, big))
+			out = append(out, fmt.Sprintf("bytes=%d-%s,0-0", a, big), fmt.Sprintf("bytes=0-0,%d-%s", a, big), fmt.Sprintf("bytes=%d-%s,%d-%s", a, big, a, big))
+			if n > 1 {
+				out = append(out, fmt.Sprintf("bytes=%d-%d,%d-%s", n-1, n-1, a, big), fmt.Sprintf("bytes=-1, %d-%s ,1-1", a, big))
+			}
+		}
+		out = append(out, "bytes=-"+big, "bytes=-"+big+",0-0", "bytes="+big+"-", "bytes="+big+"-"+big, "bytes=0-0,"+big+"-")
+	}
+	return out
 }
 
 func randMulti(r *hx.Rng, n int) string {
@@ -267,6 +307,9 @@ func main() {
 		for _, s := range malformed {
 			parse(s, int64(n))
 		}
+		for _, s := range boundaryHeaders(n) {
+			parse(s, int64(n))
+		}
 	}
 	for _, s := range []string{"", " ", "bytes= 0-1", "bytes=\v0-1\f", "bytes=\n0-\r", "bytes= - 1", "bytes=\t-\t"} {
 		parse(s, 10)
@@ -326,6 +369,32 @@ func main() {
 			}
 			for _, s := range malformed {
 				get(r.Pick([]string{"", "", "gzip"}), strings.Trim(s, " \t"))
+			}
+			for _, s := range boundaryHeaders(n) {
+				get("", s)
+			}
+		}
+	}
+	// multi-range answers (2, 3, 4 disjoint / overlapping ranges whose sum stays below the size) for blobs WITHOUT a mime type
+	// (no stored mime or application/octet-stream, no or unknown extension), with a typed one for comparison: the multipart body
+	// must be complete (Content-Length, closing delimiter) and every part must carry its bytes
+	for _, n := range []int{12, 60, 200} {
+		plain := blobData(r, n)
+		for _, nm := range [][2]string{{"", ""}, {"blob", ""}, {"x.unknownext", "application/octet-stream"}, {"a.txt", ""}, {"", "text/plain"}} {
+			reset()
+			put(false, nm[0], nm[1], plain, plain)
+			q := n / 6
+			for _, s := range []string{
+				fmt.Sprintf("bytes=0-%d,%d-%d", q-1, 2*q, 3*q-1),
+				fmt.Sprintf("bytes=1-3,%d-%d,%d-%d", 2*q, 3*q-1, 4*q, 5*q+q/2),
+				fmt.Sprintf("bytes=0-0,1-1,2-2,-%d", q),
+				fmt.Sprintf("bytes=%d-,0-%d", n-q, q),
+				fmt.Sprintf("bytes=0-%d, 0-%d", q, q),
+			} {
+				get("", s)
+			}
+			for j := 0; j < 6; j++ {
+				get("", randMulti(r, n/3))
 			}
 		}
 	}
